@@ -10,7 +10,7 @@ def run(ctx, factor):
     g, rep = ctx.g, ctx.report
     rep.rule = ("pairs of grammar listings with the same instruction sequence and random presentation edits (labels, "
                 "<symbol+off> annotations, # comments, blank lines, section / file-format headers, indentation, width and "
-                "content of the raw-byte column, continuation lines) at random positions: the real streams must be equal, "
+                "content of the raw-byte column, continuation lines, \\r\\n line ends) at random positions: the real streams must be equal, "
                 "and so must the results of a random rule in list mode; model stream compared as well")
     for _ in range(ctx.budget(400, 16000) * factor):
         l1 = gen_lines.listing(g, g.int(1, 10))
@@ -35,6 +35,17 @@ def run(ctx, factor):
             rep.dist["result-pairs"] += 1
             if a != b:
                 rep.violate("presentation-changes-the-result", dict(case, rule=doc), "equal results", {"result_1": a, "result_2": b})
+        if g.chance(0.25):
+            # line ends: the same listing file saved with \r\n (objdump on a text-mode stdout, a Windows editor)
+            crlf = r1["text"].replace("\n", "\r\n")
+            s3 = impl.stream_of(ctx.scratch, crlf)
+            m3 = model.outcome(ctx.driver.call({"op": "stream", "text": crlf}))
+            rep.dist["crlf-pairs"] += 1
+            if m3[0] != "unsup" and (s3[0] != m3[0] or (s3[0] == "ok" and s3[1] != m3[1])):
+                rep.disagree("T3-stream(crlf)", {"listing": crlf}, s3, m3)
+            if s3 != s1:
+                rep.violate("line-ends-change-the-stream", {"listing_1": r1["text"], "listing_2": crlf}, "equal streams",
+                            {"stream_1": s1, "stream_2": s3})
         rep.case(case, s1[0] == "ok" and bool(r1["expected"]), tags=["edit-pair"])
         if rep.violations and factor > 1:
             return
